@@ -64,6 +64,17 @@ unsafe_builtins = {
 }
 
 
+# attributes of generators, coroutines, frames and tracebacks that lead to
+# the frames of the evaluator itself (f_back.f_builtins is the real builtins)
+introspection_attributes = frozenset({
+    'gi_frame', 'gi_code', 'gi_yieldfrom',
+    'cr_frame', 'cr_code', 'cr_await', 'cr_origin',
+    'ag_frame', 'ag_code', 'ag_await',
+    'f_back', 'f_builtins', 'f_globals', 'f_locals', 'f_code', 'f_trace',
+    'tb_frame', 'tb_next',
+})  # fmt: skip
+
+
 class SecurityError(RuntimeError):
     """Raised when an expression or context contains unauthorized patterns."""
 
@@ -213,6 +224,11 @@ def _check_safe_eval_cached(
 
         if isinstance(node, ast.Attribute) and node.attr.startswith('__'):
             raise SecurityError(f"Dunder access prohibited: .{node.attr}")
+
+        if isinstance(node, ast.Attribute) and node.attr in introspection_attributes:
+            # a running generator reaches the evaluator's own frames:
+            #   (g.gi_frame.f_back.f_back.f_builtins for g in [t])
+            raise SecurityError(f"Frame access prohibited: .{node.attr}")
 
         if isinstance(node, ast.Attribute) and node.attr in {'format', 'format_map'}:
             # str.format() fields traverse attributes: '{0.__class__}'.format(x)
